@@ -27,7 +27,7 @@ CHECKS.update({
    note="Trusted: sim environment; the three verifhook points (H3) are the complete set of interleaving points because every queue access happens under one mutex. Deviation bound and K/R in evidence.",
    tech="explicit-state DFS with synchronous emission monitors (A); stateless deviation-bounded schedule enumeration over hooked schedule points (B)"),
  "C19": dict(cat="model_checking", ref="5/C19",
-   text="Explicit-state search over histories of writes, merges, announcements, restarts with load and snapshot round trips; (progress,max) sampled inside every event emission and at every quiescent state must never decrease while the store is open, and at rest progress == max with max Lamport time <= value <= entry count.",
+   text="Explicit-state search over histories of writes, merges, announcements, restarts with load and snapshot round trips; (progress,max) sampled inside every event emission and at every quiescent state must never decrease while the store is open, and at rest progress == max with max Lamport time <= value <= entry count. A lock-granularity unit (store, index and status files built with a sync shim; hook H6 before the replicator's emissions) runs a writer against a concurrent replication merge with every lock acquisition as a schedule point (preemption-bounded) and samples the status after every step.",
    note="Trusted: sim environment; one database per instance; samples are linearised by reading under one lock.",
    tech="explicit-state DFS by replay with invariant monitors at every emission and every quiescent state"),
  "C17": dict(cat="model_checking", ref="5/C17",
